@@ -193,8 +193,49 @@ def main(inp, outp):
                            "scenario": sc})
             notes.append({"id": traces[-1]["id"], "samples": sum(1 for x in items if x["k"] == "S"),
                           "events": [f"{classes[x['l'] - 1]}:{x['lab']}" for x in items if x["k"] == "E"]})
+    # ---- laws of the light listener: (a) illumination is a geometric fact - the frame it is asked to compute in does not matter;
+    #      (b) away from the shadow boundaries it agrees with an independent conical-shadow computation
+    from beyond.propagators.listeners import LightListener
+    laws = {"frame": {"checked": 0, "failed": 0, "examples": []}, "cone": {"checked": 0, "failed": 0, "examples": []}}
+    sun_body = get_body("Sun")
+    r_e = get_body("Earth").r
+    for sc in job["scenarios"]:
+        if not any(x in ("umbra", "penumbra") for x in sc["listeners"]) or sc["propagator"] in ("keplernum", "ephem"):
+            continue
+        orb = source(sc)
+        for k in range(0, 60):
+            o = orb.propagate(orb.date + timedelta(seconds=sc.get("offset", 0) + k * sc["duration"] / 60.0))
+            for typ in ("umbra", "penumbra"):
+                ref = LightListener(typ)(o)
+                for fname in ("EME2000", "TEME", "ITRF", "MOD", "TOD"):
+                    val = LightListener(typ, frame=fname)(o)
+                    laws["frame"]["checked"] += 1
+                    if np.sign(val) != np.sign(ref):
+                        laws["frame"]["failed"] += 1
+                        if len(laws["frame"]["examples"]) < 3:
+                            laws["frame"]["examples"].append({"scenario": sc["name"], "t_s": k * sc["duration"] / 60.0, "type": typ, "frame": fname,
+                                                              "value": float(val), "value_default_frame": float(ref)})
+                # independent cone: Sun and satellite in EME2000, shadow axis opposite to the Sun
+                xs = np.asarray(sun_body.propagate(o.date).copy(frame="EME2000", form="cartesian"), float)[:3]
+                xo = np.asarray(o.copy(frame="EME2000", form="cartesian"), float)[:3]
+                ds = np.linalg.norm(xs)
+                along = -float(xo @ xs) / ds                 # distance behind the Earth along the shadow axis
+                across = float(np.linalg.norm(xo + along * xs / ds))
+                if typ == "umbra":
+                    radius = r_e - along * (sun_body.r - r_e) / ds          # the umbra cone narrows
+                else:
+                    radius = r_e + along * (sun_body.r - r_e) / ds          # the library's penumbra opens with the same half-angle
+                margin = across - radius if along > 0 else 1e9
+                if abs(margin) > 3000.0:                     # 3 km from the boundary: 0.4 s of motion at most
+                    laws["cone"]["checked"] += 1
+                    lit = margin > 0
+                    if lit != (ref > 0):
+                        laws["cone"]["failed"] += 1
+                        if len(laws["cone"]["examples"]) < 3:
+                            laws["cone"]["examples"].append({"scenario": sc["name"], "t_s": k * sc["duration"] / 60.0, "type": typ, "margin_m": margin,
+                                                             "listener": float(ref)})
     with open(outp, "w") as fh:
-        json.dump({"traces": traces, "notes": notes}, fh)
+        json.dump({"traces": traces, "notes": notes, "laws": laws}, fh)
 
 
 if __name__ == "__main__":
